@@ -3,5 +3,6 @@ pub mod c03;
 pub mod c04;
 pub mod c05;
 pub mod c05file;
+pub mod c07;
 pub mod c11;
 pub mod c16;
